@@ -486,6 +486,13 @@ def step (s : S) (ws : List String) : S × String :=
   | ["closed"] => (s, closedNames s)
   -- Close() started while a write transaction on the table is open and finished after it:
   -- serialised after that transaction, i.e. a `cclose` at the point of `ccloseresume`
+  -- a second write transaction (holding the OTHER table) attempts a write to a table the open
+  -- transaction holds: refused, nothing changes for anybody
+  | "sidebad" :: tn :: _ =>
+    (match tableIdx tn, s.db.wtxn with
+     | some ti, some es =>
+       if (getT es ti).locked && !(getT es (1 - ti)).locked && !s.db.gcPaused then (s, "notLocked") else (s, "bad-op")
+     | _, _ => (s, "bad-op"))
   | ["cclosepark", c] => ({ s with parkedClose := c }, "ok")
   | ["ccloseresume"] => stepCore { s with parkedClose := "" } ["cclose", s.parkedClose]
   | ["delall", tn] =>
